@@ -623,6 +623,91 @@ func (c *ctx) addrIQ(ps []Pat, sx string, cons []int, framing, class string) {
 	}
 }
 
+// ---- a reader that fails in the middle of a stanza -------------------------------------
+
+// cutDispatch hands HandleXMPP a reader that delivers the first cut tokens of the stanza (the
+// start element is the first) and then fails with an error that is not io.EOF, on every call.
+// The handlers of the children whose start tag arrived run and see what arrived; HandleXMPP
+// must return the reader's error - also when handlers (errs) failed as well - and must not
+// treat the torso as an empty stanza.
+func (c *ctx) cutDispatch(ps []Pat, sx string, cons []int, cut int, errs []int, class string) {
+	r := c.r
+	toks, st, ok := elemToks(sx)
+	if !ok || cut < 1 || cut >= len(toks) {
+		return
+	}
+	kind := kindOfLocal(st.Name.Local)
+	typ := specHdr(kind, st.Attr).typ
+	line := strings.Join([]string{"cut", kind, field(typ), encPats(ps), common.EncToks(toks), encInts(cons), fmt.Sprint(cut)}, " ")
+	lines := []string{r.Prop + " " + line, "#stanza " + common.HexS(sx)}
+	rec := &recorder{cons: cons, errs: map[int]bool{}}
+	for _, e := range errs {
+		rec.errs[e] = true
+	}
+	m, p := buildFn(c08.NSClient, ps, rec, cut%2 == 0)
+	if p != "" {
+		r.Line(line, "BUILD-PANIC")
+		return
+	}
+	fr := &framedReader{toks: toks[1:cut], framing: "fail"}
+	start := st.Copy()
+	var herr error
+	if pn := common.Recover(func() { herr = m.HandleXMPP(fr, &start) }); pn != "" {
+		r.Line(line, "PANIC")
+		r.Fail("no-panic", "panic", lines, pn)
+		return
+	}
+	res := "|other"
+	switch {
+	case herr == errBoom || (herr != nil && len(errs) > 0 && errList.MatchString(herr.Error())):
+		// (which of the two errors is reported when handlers failed as well is the implementation's choice)
+		res = "|fail"
+	case herr == nil:
+		res = "|nil"
+	}
+	r.Line(line, encCalls(rec.calls)+res)
+	r.Case(line, len(rec.calls) > 0, fmt.Sprintf("%s/cut-%s/%d", class, kind, len(rec.calls)))
+	if res != "|fail" {
+		r.Fail("dispatch-ok", "reader-error-lost", lines, fmt.Sprintf("the reader failed after %d of %d tokens; HandleXMPP returned %v", cut, len(toks), herr))
+	}
+	arrived := toks[:cut]
+	var want []*Pat
+	depth := 0
+	for _, t := range arrived[1:] {
+		switch tt := t.(type) {
+		case xml.StartElement:
+			if depth == 0 {
+				if b := best(ps, kind, typ, tt.Name); b != nil {
+					want = append(want, b)
+				}
+			}
+			depth++
+		case xml.EndElement:
+			depth--
+		}
+	}
+	if len(want) != len(rec.calls) {
+		r.Fail("most-specific", "cut-count", lines, fmt.Sprintf("%d handlers ran for the %d tokens that arrived, want %d", len(rec.calls), cut, len(want)))
+		return
+	}
+	for i, cl := range rec.calls {
+		if cl.pat != *want[i] {
+			r.Fail("most-specific", "cut-child-handler", lines, fmt.Sprintf("call %d went to %s, want %s", i, cl.pat.Enc(), want[i].Enc()))
+		}
+		n := 0
+		if i < len(cons) {
+			n = cons[i]
+		}
+		wt := arrived
+		if n < len(wt) {
+			wt = wt[:n]
+		}
+		if common.EncToks(cl.toks) != common.EncToks(wt) {
+			r.Fail("full-stanza", "cut-view", lines, fmt.Sprintf("call %d read %s, want %s", i, common.EncToks(cl.toks), common.EncToks(wt)))
+		}
+	}
+}
+
 // ---- generators -------------------------------------------------------------------
 
 func (c *ctx) runE() {
@@ -809,5 +894,44 @@ func (c *ctx) runE() {
 				}
 			}
 		}
+	}
+
+	// (4) a reader that fails in the middle of the stanza: every cut point of fixed stanzas x
+	// consumption amounts (also: some handlers fail too - the reader's error still wins), random
+	cutPs := []Pat{{Kind: "m", Typ: "chat", Name: xml.Name{}}, {Kind: "m", Typ: "chat", Name: q}, {Kind: "p", Typ: "", Name: xml.Name{}}, {Kind: "p", Typ: "", Name: xml.Name{Space: "urn:b"}}}
+	for si, sx := range []string{
+		`<message type="chat"/>`,
+		`<message type="chat"><x xmlns="urn:a"/></message>`,
+		`<message type="chat"><x xmlns="urn:a"><i/>t</x><y xmlns="urn:b"/>tail<z xmlns="urn:c"/></message>`,
+		`<presence><c xmlns="urn:b"/>  <x xmlns="urn:a"><c xmlns="urn:b"/></x></presence>`,
+		`<presence> </presence>`,
+	} {
+		n := strings.Count(sx, "<") + strings.Count(sx, "/>") + 3
+		for cut := 1; cut < n; cut++ {
+			for ci, cons := range [][]int{{0, 0, 0}, {99, 99, 99}, {2, 99, 1}, {99, 0, 3}} {
+				var errs []int
+				if (si+cut+ci)%3 == 0 {
+					errs = []int{(cut + ci) % 2}
+				}
+				c.cutDispatch(cutPs, sx, cons, cut, errs, "cut")
+			}
+		}
+	}
+	nc := r.Pick(400, 6000)
+	for i := 0; i < nc; i++ {
+		local := []string{"message", "presence"}[rnd.Intn(2)]
+		k := kindOfLocal(local)
+		sx, ntok := genStanza(rnd, local, attrOfKind(local))
+		ps := []Pat{{Kind: k, Typ: attrOfKind(local), Name: xml.Name{}}}
+		for _, p := range universe(k, attrOfKind(local))[1:] {
+			if rnd.Chance(1, 3) {
+				ps = append(ps, p)
+			}
+		}
+		cons := make([]int, 6)
+		for j := range cons {
+			cons[j] = rnd.Intn(ntok + 3)
+		}
+		c.cutDispatch(ps, sx, cons, 1+rnd.Intn(ntok), nil, "cut-random")
 	}
 }
